@@ -4503,8 +4503,24 @@ static WBXMLError xml_encode_text(WBXMLEncoder *encoder, WBXMLTreeNode *node)
     WB_ULONG i = 0;
 
     if (encoder->in_cdata) {
-        /* If we are in a CDATA section, do not modify the text to encode */
-        if (!wbxml_buffer_append(encoder->output, str))
+        /* If we are in a CDATA section, do not modify the text to encode...
+         * except that "]]>" would end the section: split it into two sections
+         * ("]]" ends the current one, ">" starts the next one) */
+        const WB_UTINY *data = wbxml_buffer_get_cstr(str);
+        WB_ULONG len = wbxml_buffer_len(str);
+        WB_ULONG from = 0;
+
+        for (i = 0; i + 2 < len; i++) {
+            if ((data[i] == ']') && (data[i + 1] == ']') && (data[i + 2] == '>')) {
+                if (!wbxml_buffer_append_data(encoder->output, data + from, i + 2 - from) ||
+                    !wbxml_buffer_append_cstr(encoder->output, "]]><![CDATA["))
+                    return WBXML_ERROR_ENCODER_APPEND_DATA;
+
+                from = i + 2;
+            }
+        }
+
+        if (!wbxml_buffer_append_data(encoder->output, data + from, len - from))
             return WBXML_ERROR_ENCODER_APPEND_DATA;
     }
     else {
